@@ -22,7 +22,8 @@ EXPLANATION = (
     "knows makes a ready node raise KeyError or a satisfiable node never run); (R3) a node is ready only if activation, inputs, wait_for and "
     "needs-execution all hold; (R4) the first production of a name always advances its version, so a consumer that already ran on its signature "
     "default is re-run with the upstream value; (R5) a tuple return is unpacked positionally onto the data output names after a length check, a "
-    "single output is stored as returned."
+    "single output is stored as returned; (R6) both supersteps record a node's consumed input versions from the pre-step snapshot it read its "
+    "inputs from (recording a fresher version would keep a consumer that ran on a default from ever re-running with the upstream value)."
 )
 NOT_DECIDED = "That returned values equal the reference evaluation; that edges are inferred correctly from names; exactly-once execution."
 
@@ -41,6 +42,7 @@ def run(ctx) -> None:
     rep.rule("C01.R3", "readiness is the conjunction of activation, inputs, wait_for and needs-execution", floor=1)
     rep.rule("C01.R4", "first production of a name advances its version", floor=1)
     rep.rule("C01.R5", "tuple returns are unpacked positionally after a length check", floor=2)
+    rep.rule("C01.R6", "a node records the input versions of the snapshot it actually consumed", floor=4)
 
     gvs = db.func("runners._shared.helpers.get_value_source")
     cfg = ctx.cfg(gvs)
@@ -162,6 +164,11 @@ def run(ctx) -> None:
         ok = bool(stores) and all(any(d in dom.get(s, set()) for d in newdefs) for s in stores)
     rep.add("C01.R4", f"{uv.qname}:first-production-advances", ok, uv.loc(), "the first production of a name always advances its version" if ok else "the first production of a name can leave its version at 0 (e.g. an upstream None): a consumer that already ran on its signature default is never re-run with the upstream value")
 
+    # ---- R6 ---------------------------------------------------------------------
+    from .c02 import check_versions_from_snapshot
+
+    check_versions_from_snapshot(ctx, "C01.R6")
+
     # ---- R5 ---------------------------------------------------------------------
     wo = db.func("runners._shared.helpers.wrap_outputs")
     t = src(wo.node)
@@ -180,6 +187,7 @@ def _k(lst, x) -> int:
 HP = "src/hypergraph/runners/_shared/helpers.py"
 TY = "src/hypergraph/runners/_shared/types.py"
 VARIANTS = [
+    Variant("async-versions-from-new-state", "src/hypergraph/runners/async_/superstep.py", replace_once("input_versions = {param: state.get_version(param) for param in node.inputs}", "input_versions = {param: new_state.get_version(param) for param in node.inputs}"), {"C01.R6"}),
     Variant("bound-before-state", HP, replace_once("    # 1. Edge value (from upstream node output)\n    if param in state.values:\n        return (ValueSource.EDGE, state.values[param])\n\n    # 2. Input value (from run() call)\n    if param in provided_values:\n        return (ValueSource.PROVIDED, provided_values[param])\n\n    # 3. Bound value (from graph.bind()) - check both graph and GraphNode\n    if param in graph.inputs.bound:\n        return (ValueSource.BOUND, graph.inputs.bound[param])\n", "    # 3. Bound value (from graph.bind()) - check both graph and GraphNode\n    if param in graph.inputs.bound:\n        return (ValueSource.BOUND, graph.inputs.bound[param])\n\n    # 1. Edge value (from upstream node output)\n    if param in state.values:\n        return (ValueSource.EDGE, state.values[param])\n\n    # 2. Input value (from run() call)\n    if param in provided_values:\n        return (ValueSource.PROVIDED, provided_values[param])\n"), {"C01.R1"}),
     Variant("twin-provided-bound-swapped", HP, replace_once("    # 2. Input value (from run() call)\n    if param in provided_values:\n        return (ValueSource.PROVIDED, provided_values[param])\n\n    # 3. Bound value (from graph.bind()) - check both graph and GraphNode\n    if param in graph.inputs.bound:\n        return (ValueSource.BOUND, graph.inputs.bound[param])\n", "    # 3. Bound value (from graph.bind()) - check both graph and GraphNode\n    if param in graph.inputs.bound:\n        return (ValueSource.BOUND, graph.inputs.bound[param])\n\n    # 2. Input value (from run() call)\n    if param in provided_values:\n        return (ValueSource.PROVIDED, provided_values[param])\n"), set()),
     Variant("default-before-inner-bound", HP, replace_once("    # 3b. For GraphNode: check if inner graph has it bound\n    if isinstance(node, GraphNode):\n        original_param = node._resolve_original_input_name(param)\n        if original_param in node._graph.inputs.bound:\n            return (ValueSource.BOUND, node._graph.inputs.bound[original_param])\n\n    # 4. Function default (from signature)\n    if node.has_signature_default_for(param):\n        default = node.get_signature_default_for(param)\n        return (ValueSource.DEFAULT, default)\n", "    # 4. Function default (from signature)\n    if node.has_signature_default_for(param):\n        default = node.get_signature_default_for(param)\n        return (ValueSource.DEFAULT, default)\n\n    # 3b. For GraphNode: check if inner graph has it bound\n    if isinstance(node, GraphNode):\n        original_param = node._resolve_original_input_name(param)\n        if original_param in node._graph.inputs.bound:\n            return (ValueSource.BOUND, node._graph.inputs.bound[original_param])\n"), {"C01.R1"}),
